@@ -17,8 +17,9 @@
 //!     such situations are generated with overhead 0 and without movestogo so that they lie in
 //!     the property's domain by construction).
 //!
-//! `time pollgap <fens.txt> <wtime_ms> <n_searches> <events-out>`
-//!     Runs real searches under `go wtime t btime t` while a monitor thread watches the H1 poll
+//! `time pollgap <fens.txt> "<go line>" <n_searches> <events-out>`
+//!     Runs real searches under the given `go` line (clock limits of at most 2 s, so that
+//!     nanosecond times fit 31 bits) while a monitor thread watches the H1 poll
 //!     counter (`verif::polls()`, one count per load of the stop flag, i.e. per in-iteration poll
 //!     and per iteration boundary) and records the time of every change: `{ev:"poll",run,k,t}`
 //!     (t in ns since `TimeStrategy::new`), then `{ev:"ret",run,t,soft,hard,polls}`.
@@ -54,10 +55,6 @@ struct Sit {
     ovh: u64,
     black: bool,
     src: &'static str,
-}
-
-fn opt_i64(v: &Value, k: &str) -> Option<i64> {
-    v.get(k).and_then(Value::as_i64)
 }
 
 impl Sit {
@@ -364,12 +361,12 @@ fn tuples(rest: &[String]) -> i32 {
 // ------------------------------------------------------------------ poll gaps
 fn pollgap(rest: &[String]) -> i32 {
     if rest.len() < 4 {
-        eprintln!("usage: time pollgap <fens.txt> <wtime_ms> <n_searches> <events-out>");
+        eprintln!("usage: time pollgap <fens.txt> \"<go line>\" <n_searches> <events-out>");
         return 2;
     }
     let fens: Vec<String> = std::fs::read_to_string(&rest[0]).unwrap().lines()
         .map(|l| l.trim().to_string()).filter(|l| !l.is_empty()).collect();
-    let t_ms: u64 = rest[1].parse().unwrap();
+    let go = rest[1].clone();
     let n: usize = rest[2].parse().unwrap();
     let mut out = std::io::BufWriter::new(std::fs::File::create(&rest[3]).unwrap());
     let mut state = PersistentState::new(16);
@@ -379,7 +376,6 @@ fn pollgap(rest: &[String]) -> i32 {
         if game.moves().is_empty() {
             continue;
         }
-        let go = format!("go wtime {t_ms} btime {t_ms}");
         let Ok(UciCommand::Go(args)) = parser::parse(&go) else { return 2 };
         let tc = time_control_of(&args);
         let options = EngineOptions::default();
